@@ -643,6 +643,36 @@ Section C04.
     pose proof (spec_bposts_perm (rs_lk st) (rc_commodity cfg) (rs_file st) _ _ Hpt) as Hbp.
     split; [apply T05_proofs.spec_own_perm|apply T05_proofs.spec_tree_perm]; exact Hbp.
   Qed.
+
+  (* T08_set_function_checksum: ... and the metadata of the set (audit checksum, set size, filter description) is the
+     same, with no distinguishability assumption (C09_perm lifted to the run) *)
+  Lemma make_items_perm audit algo flt us us' : Permutation us us' ->
+    MetaText.make_items H audit algo None flt us = MetaText.make_items H audit algo None flt us'.
+  Proof.
+    intros Hp. unfold MetaText.make_items, MetaText.make_metadata.
+    rewrite (Audit_proofs.c09_metadata_perm H audit us us' Hp). reflexivity.
+  Qed.
+
+  Lemma set_function_checksum cfg j j' p pts pts' ts ts' st st' :
+    parse_journal (rc_journal cfg) j = Ok pts -> mapM accept_ptxn pts = Ok ts ->
+    parse_journal (rc_journal cfg) j' = Ok pts' -> mapM accept_ptxn pts' = Ok ts' ->
+    Permutation ts ts' ->
+    run_prepare H cfg j p = Ok st -> run_prepare H cfg j' p = Ok st' ->
+    rs_md st = rs_md st' /\ length (rs_sel st) = length (rs_sel st').
+  Proof.
+    intros P1 M1 P2 M2 Hperm Hp Hp'.
+    destruct (prepare_inv H _ _ _ _ Hp) as (js & _ & Hl & Hsel & _ & Hm).
+    destruct (prepare_inv H _ _ _ _ Hp') as (js' & _ & Hl' & Hsel' & _ & Hm').
+    destruct (load_inv _ _ _ Hl) as [Hlj _]. destruct (load_inv _ _ _ Hl') as [Hlj' _].
+    rewrite (load_journal_of_parts _ _ _ _ P1 M1) in Hlj. rewrite (load_journal_of_parts _ _ _ _ P2 M2) in Hlj'.
+    injection Hlj as <-. injection Hlj' as <-.
+    assert (Hps : Permutation (rs_sel st) (rs_sel st')).
+    { rewrite Hsel, Hsel'. apply run_filter_perm.
+      transitivity ts; [apply sort_by_perm|]. transitivity ts'; [exact Hperm|apply Permutation_sym, sort_by_perm]. }
+    split; [|apply Permutation_length; exact Hps].
+    rewrite (make_items_perm _ _ _ _ (map uuid_of (rs_sel st')) (Permutation_map uuid_of Hps)) in Hm.
+    rewrite Hm in Hm'. injection Hm' as E. exact E.
+  Qed.
 End C04.
 
 (* ================================================================== 5. C05: the filter; C09: the checksum item *)
@@ -695,6 +725,32 @@ Section C05_C09.
     - destruct (run_items_shape _ _ _ _ _ _ Hm) as (cs & _ & _ & Hsh). unfold filter_desc in Hsh. rewrite Hf in Hsh. cbn [option_map fst snd] in Hsh.
       destruct (rs_md st) as [items|]; [|destruct Hsh as [_ Hx]; discriminate].
       eexists. rewrite Hsh. reflexivity.
+  Qed.
+
+  (* T08_filter_partition: the run with a filter and the run with its negation split the loaded set *)
+  Lemma filter_partition a b j p sta stb f pats :
+    rc_journal a = rc_journal b ->
+    rc_filter a = Some (f, pats) -> rc_filter b = Some (Filter.FNot f, pats) ->
+    run_prepare H a j p = Ok sta -> run_prepare H b j p = Ok stb ->
+    exists js,
+      load_journal (rc_journal a) j = Ok js
+      /\ Filter_spec.Interleave (rs_sel sta) (rs_sel stb) js
+      /\ (length (rs_sel sta) + length (rs_sel stb) = length js)%nat
+      /\ (forall x, In x js -> (In x (rs_sel sta) /\ ~ In x (rs_sel stb)) \/ (In x (rs_sel stb) /\ ~ In x (rs_sel sta)))
+      /\ rs_txns sta = map txn_of (rs_sel sta) /\ rs_txns stb = map txn_of (rs_sel stb).
+  Proof.
+    intros Hj Hfa Hfb Hpa Hpb.
+    destruct (filter_exact _ _ _ _ _ _ Hpa Hfa) as (js & Hl & _ & Hsa & Hta & _).
+    destruct (filter_exact _ _ _ _ _ _ Hpb Hfb) as (js' & Hl' & _ & Hsb & Htb & _).
+    rewrite <- Hj, Hl in Hl'. injection Hl' as <-.
+    exists js. split; [exact Hl|].
+    assert (HI : Filter_spec.Interleave (rs_sel sta) (rs_sel stb) js).
+    { rewrite Hsa, Hsb. cbn [Filter.eval]. apply Filter_proofs.c05_filter_interleave. }
+    split; [exact HI|]. split; [apply Filter_proofs.c05_interleave_length; exact HI|].
+    split; [|split; assumption].
+    intros x Hx. rewrite Hsa, Hsb, !filter_In. cbn [Filter.eval].
+    destruct (Filter.eval (re_table pats) f (ftxn_of x)); [left|right]; cbn [negb]; split; try tauto;
+      intros [_ Hd]; discriminate.
   Qed.
 
   (* ... and the block printed in front of the reports ends with the description of that filter *)
